@@ -19,10 +19,15 @@ sense), and the zero vector gives zero (`NormalisesR`, `unit_length`). `magnitud
 `√(Σ cᵢ²)` of the stored components, typed as the scalar quantity of the same dimension set;
 `magnitude_times_direction` rebuilds the vector over the reals. Typed component accessors are C17's
 `accessors_expose_stored_value`. Homogeneity of degree zero (rescaling) is C03's `homogeneous` on the
-same entries. The floating-point clauses (four ulps, bit-exact power-of-two invariance) are exercised
-on the real code by the search and rest on Theory/Round.lean for the rounding model.
+same entries. Floating point: `unit_length_four_ulps` — for the entries that normalise their inputs
+directly (147 of the 168 normalising ones), all finite inputs with non-zero components of either sign and
+no intermediate under/overflow: the computed direction has length within `8·2^-p` (four ulps) of one and
+every component has the sign of its input (Theory/UnitLength.lean: five roundings per component from
+`posFrag_sound`, exact sign symmetry of `x·x` and `a/b`). Bit-exact power-of-two invariance, and
+vectors with zero components, are exercised on the real code by the search.
 -/
 import PhQVerif.Theory.Direction
+import PhQVerif.Theory.UnitLength
 import PhQVerif.Checkers
 import PhQVerif.Generated.Obl_C10dir
 import PhQVerif.Generated.Obl_C10mag
@@ -195,6 +200,92 @@ theorem normalised_components_few_ulps_partial :
   intro e _ ex _ k hk L env x henv hr
   exact posFrag_sound e.fm.fmt.p (fm_p_pos e.fm) ex k hk L env x henv hr
 
+/-- The entry normalises *input components* directly (`xᵢ / √(Σ xⱼ²)` on the stored numbers it is
+given — every construction path from components, an array, a vector or a vector quantity), and every
+normalised component is at most five roundings from exact. -/
+def fiveRoundings (e : Entry) : Bool :=
+  dirTreeOk e.fm e.tree &&
+  (normalisedOuts e.tree).all (fun ex =>
+    (match ex with | .bin .div _ (.var _ _) (.un .sqrt _ _) => true | _ => false) &&
+    (match posFrag e.fm.fmt.p ex with | some k => decide (k ≤ 5) | none => false))
+
+/-- **C10 (length one to within four ulps; same sense) — floating point, all signs.** For every
+direction-producing entry that normalises its inputs directly (`fiveRoundings`; the count is printed by
+Audit/C10 — the others normalise a converted or derived vector, e.g. a cross product or a value of another precision —):
+for all finite inputs with non-zero components of either sign, provided no intermediate result under-
+or overflows (`InRange`, stated on the absolute values), the Euclidean length of the *computed*
+direction differs from one by at most `8·2^-p` — four units in the last place of one — and every
+computed component has the sign of its input component. Partial in one respect only: vectors with a
+component exactly zero are not covered by this statement (that component is then exactly zero and the
+bound holds for the others; exercised by the search). -/
+theorem unit_length_four_ulps (e : Entry) (h : fiveRoundings e = true) (L : Libm) (env : Nat → Fl)
+    (hfin : ∀ i, (env i).isFinite = true ∧ Fl.toReal (env i) ≠ 0)
+    (hr : ∀ ex ∈ normalisedOuts e.tree, InRange L (fun j => Fl.abs (env j)) ex) :
+    |Real.sqrt (((normalisedOuts e.tree).map fun ex => (Fl.toReal (ex.evalF L env)) ^ 2).sum) - 1| ≤
+      8 * uOf e.fm.fmt.p ∧
+    ∀ ex ∈ normalisedOuts e.tree, ∃ g i fi D, ex = .bin .div g (.var i fi) D ∧
+      (ex.evalF L env).sign = (env i).sign := by
+  have hp4 : 4 ≤ e.fm.fmt.p := by cases e.fm <;> decide
+  unfold fiveRoundings at h
+  simp only [Bool.and_eq_true] at h
+  obtain ⟨hdir, hall⟩ := h
+  unfold dirTreeOk at hdir
+  split at hdir
+  · rename_i t0 S lf le f1 a g1 s1 f2 b g2 s2 z1 z2 heq
+    simp only [Bool.and_eq_true, beq_iff_eq] at hdir
+    obtain ⟨⟨⟨⟨h1, h2⟩, hS⟩, _⟩, _⟩ := hdir
+    subst h1; subst h2
+    rw [heq] at hall hr ⊢
+    simp only [normalisedOuts, List.filterMap_cons, List.filterMap_nil, List.all_cons, List.all_nil,
+      Bool.and_true, Bool.and_eq_true, List.mem_cons, List.not_mem_nil, or_false, forall_eq_or_imp,
+      forall_eq] at hall hr ⊢
+    obtain ⟨⟨ha, hka⟩, ⟨hb, hkb⟩⟩ := hall
+    cases a <;> simp only [Bool.false_eq_true] at ha
+    cases b <;> simp only [Bool.false_eq_true] at hb
+    rename_i i0 f0 i1 f1'
+    cases hp0 : posFrag e.fm.fmt.p (.bin .div f1 (.var i0 f0) (.un .sqrt g1 s2)) with
+    | none => simp [hp0] at hka
+    | some k0 =>
+      cases hp1 : posFrag e.fm.fmt.p (.bin .div f2 (.var i1 f1') (.un .sqrt g2 s2)) with
+      | none => simp [hp1] at hkb
+      | some k1 =>
+        simp only [hp0, hp1, decide_eq_true_eq] at hka hkb
+        subst hS
+        have := unit_length2 e.fm.fmt.p hp4 L env hfin e.fm f1 f2 f0 f1' g1 g2 i0 i1 k0 k1 hka hkb
+          hp0 hp1 hr.1 hr.2
+        simp only [List.map_cons, List.map_nil, List.sum_cons, List.sum_nil, add_zero]
+        exact ⟨this.1, ⟨_, _, _, _, rfl, this.2.1⟩, ⟨_, _, _, _, rfl, this.2.2⟩⟩
+  · rename_i t0 S lf le f1 a g1 s1 f2 b g2 s2 f3 c g3 s3 z1 z2 z3 heq
+    simp only [Bool.and_eq_true, beq_iff_eq] at hdir
+    obtain ⟨⟨⟨⟨⟨⟨h1, h2⟩, h3⟩, hS⟩, _⟩, _⟩, _⟩ := hdir
+    subst h1; subst h2; subst h3
+    rw [heq] at hall hr ⊢
+    simp only [normalisedOuts, List.filterMap_cons, List.filterMap_nil, List.all_cons, List.all_nil,
+      Bool.and_true, Bool.and_eq_true, List.mem_cons, List.not_mem_nil, or_false, forall_eq_or_imp,
+      forall_eq] at hall hr ⊢
+    obtain ⟨⟨ha, hka⟩, ⟨hb, hkb⟩, ⟨hc, hkc⟩⟩ := hall
+    cases a <;> simp only [Bool.false_eq_true] at ha
+    cases b <;> simp only [Bool.false_eq_true] at hb
+    cases c <;> simp only [Bool.false_eq_true] at hc
+    rename_i i0 f0 i1 f1' i2 f2'
+    cases hp0 : posFrag e.fm.fmt.p (.bin .div f1 (.var i0 f0) (.un .sqrt g1 s3)) with
+    | none => simp [hp0] at hka
+    | some k0 =>
+      cases hp1 : posFrag e.fm.fmt.p (.bin .div f2 (.var i1 f1') (.un .sqrt g2 s3)) with
+      | none => simp [hp1] at hkb
+      | some k1 =>
+        cases hp2 : posFrag e.fm.fmt.p (.bin .div f3 (.var i2 f2') (.un .sqrt g3 s3)) with
+        | none => simp [hp2] at hkc
+        | some k2 =>
+          simp only [hp0, hp1, hp2, decide_eq_true_eq] at hka hkb hkc
+          subst hS
+          have := unit_length3 e.fm.fmt.p hp4 L env hfin e.fm f1 f2 f3 f0 f1' f2' g1 g2 g3 i0 i1 i2 k0 k1 k2
+            hka hkb hkc hp0 hp1 hp2 hr.1 hr.2.1 hr.2.2
+          simp only [List.map_cons, List.map_nil, List.sum_cons, List.sum_nil, add_zero, ← add_assoc]
+          exact ⟨this.1, ⟨_, _, _, _, rfl, this.2.1⟩, ⟨_, _, _, _, rfl, this.2.2.1⟩,
+            ⟨_, _, _, _, rfl, this.2.2.2⟩⟩
+  · exact absurd hdir (by simp)
+
 /-! ### Non-vacuity -/
 
 example : (f64.«Force::y()»).mem = .comp 1 := by decide
@@ -204,6 +295,8 @@ example : (f64.«Displacement::ctor(Length,Direction)»).isScaleDirCtor classes 
 
 
 example : (f64.«Velocity::Direction()»).producesDirection classes = true := by decide
+example : fiveRoundings (f64.«Velocity::Direction()») = true := by decide
+example : fiveRoundings (f32.«PlanarDirection::Set(num,num)») = true := by decide
 example : (f32.«Direction::Set(num,num,num)»).producesDirection classes = true := by decide
 example : (f80.«PlanarForce::Magnitude()»).mem = .magnitude := by decide
 
